@@ -44,7 +44,7 @@ def run(ctx):
         raise Inconclusive("gate-replay executed %d of %d rows" % (R["executed"], R["rows"]))
     ctx.cov["evaluations"] += R["executed"]
     ctx.cov["distinct_nontrivial"] += R["nontrivial"]
-    ctx.cov["exhaustive"] = True
+    ctx.cov["exhaustive"] = not ctx.replay      # the finite gate table was replayed completely
     ctx.notes["gate_table"] = {"rows": R["rows"], "configurations": R["configs"], "via_socket": R["via_socket"],
                                "via_handler_with_remote_addr": R["via_handler"], "answers": R["by_status"],
                                "upstream_requests_recorded": R["upstream_requests"]}
@@ -66,7 +66,7 @@ def run(ctx):
     # 3. binding B: seeded random identities / routes / configurations, trace validated against the spec
     trace = os.path.join(ctx.scratch, "admin.ndjson")
     trep = os.path.join(ctx.scratch, "gate-trace.json")
-    rc, out, err = ctx.run_harness(["gate-trace", "--seed", ctx.seed, "--n", 4000 if quick else 40000, "--out", trace,
+    rc, out, err = ctx.run_harness(["gate-trace", "--seed", ctx.seed, "--n", 4000 if quick else 100000, "--out", trace,
                                     "--report", trep], timeout=1800, name="admin")
     if rc != 0 or not os.path.exists(trep):
         raise Inconclusive("gate-trace: " + out[-2000:] + err[-4000:])
